@@ -97,10 +97,10 @@ def raise_exc(kind, *args):
 
 
 def py_loop(markdir=None, n=None):
-    """Interruptible Python loop with except/finally markers."""
-    mark(markdir, 'entered')
-    i = 0
+    """Interruptible Python loop; the try block covers the whole body."""
     try:
+        mark(markdir, 'entered')
+        i = 0
         while n is None or i < n:
             i += 1
     except WorkerTerminatedError:
@@ -111,25 +111,33 @@ def py_loop(markdir=None, n=None):
     return i
 
 
-def with_block(markdir=None):
-    class CM:
-        def __enter__(self):
-            mark(markdir, 'entered')
-            return self
+class _CM:
+    def __init__(self, markdir):
+        self.markdir = markdir
 
-        def __exit__(self, *exc):
-            mark(markdir, 'exit', text=str(exc[0].__name__ if exc[0] else None))
-            return False
-    with CM():
+    def __enter__(self):
+        mark(self.markdir, 'entered')
+        return self
+
+    def __exit__(self, *exc):
+        mark(self.markdir, 'finally', text='exit:%s' % (exc[0].__name__ if exc[0] else None))
+        if exc[0] is WorkerTerminatedError:
+            mark(self.markdir, 'except_wte')
+        return False
+
+
+def with_block(markdir=None, n=20):
+    with _CM(markdir):
         i = 0
-        while True:
+        while n is None or i < n:
             i += 1
+    return i
 
 
-def short_work(markdir=None, v=7, steps=20):
-    """Finishes on its own after a few loop iterations (target phases: running / just returned)."""
-    mark(markdir, 'entered')
+def short_work(markdir=None, v=7, steps=12):
+    """Finishes on its own after a few loop iterations (phases: running / just returned)."""
     try:
+        mark(markdir, 'entered')
         x = 0
         for i in range(steps):
             x += i
@@ -141,9 +149,9 @@ def short_work(markdir=None, v=7, steps=20):
         mark(markdir, 'finally')
 
 
-def short_raise(markdir=None, steps=10):
-    mark(markdir, 'entered')
+def short_raise(markdir=None, steps=8):
     try:
+        mark(markdir, 'entered')
         x = 0
         for i in range(steps):
             x += i
@@ -153,6 +161,23 @@ def short_raise(markdir=None, steps=10):
         raise
     finally:
         mark(markdir, 'finally')
+
+
+def p_work(uid, markdir=None, steps=6, fail=False):
+    """Persistent-worker target: unique id in, (uid, sum) out; markers per input."""
+    try:
+        mark(markdir, 'entered.%s' % uid)
+        x = 0
+        for i in range(steps):
+            x += i
+        if fail:
+            raise CustomError('own', uid)
+        return [uid, x]
+    except WorkerTerminatedError:
+        mark(markdir, 'except_wte.%s' % uid)
+        raise
+    finally:
+        mark(markdir, 'finally.%s' % uid)
 
 
 def swallow_loop(markdir=None):
